@@ -451,3 +451,73 @@ if __name__ == '__main__':
         shutil.rmtree(tmp, ignore_errors=True)
     print('SELFTEST', 'PASS' if ok else 'FAIL')
     sys.exit(0 if ok else 1)
+
+
+# ----------------------------------------------------------------------------------------------- confirmation of counterexamples
+_LBUILD = {}
+
+
+def _binary_for(L):
+    """driver built against the same source tree the MIR was dumped from"""
+    key = getattr(L, 'mir_hash', 'x')
+    if key in _LBUILD:
+        return _LBUILD[key]
+    from . import load as _load
+    work = getattr(L, 'work', None)
+    scratch = getattr(L, 'scratch', None)
+    if work is None or not os.path.isdir(work):
+        scratch = _load.make_scratch('verif.replay.')
+        work = os.path.join(scratch, 'repo')
+        os.makedirs(work)
+        _load.copy_repo(work)
+    b = build(work, scratch)
+    _LBUILD[key] = b
+    return b
+
+
+def observe(L, scenario, timeout_s=25):
+    """run a 'conversation' scenario natively; returns the observables used for comparison"""
+    from .env import parse_responses
+    if scenario.get('bytes_hex'):
+        data = bytes.fromhex(scenario['bytes_hex'])
+    elif scenario.get('text') is not None:
+        data = scenario['text'].encode('latin1')
+    else:
+        return None
+    sc = {'bytes': data, 'mode': scenario.get('mode', 'respond_all'), 'half_close': scenario.get('half_close', True),
+          'wait_ms': scenario.get('wait_ms', 1200), 'hold_ms': scenario.get('hold_ms', 300)}
+    res = run(_binary_for(L), sc, timeout_s=timeout_s)
+    cb = res.get('client_bytes', b'') + res.get('client_late_bytes', b'')
+    rs = parse_responses(cb)
+    return {'urls': [r['url'].decode('latin1') for r in res.get('requests', [])],
+            'codes': [r.get('status') for r in rs if r.get('status') is not None],
+            'panics': len(res.get('panics', [])),
+            'eof': bool(res.get('client_eof') or res.get('client_late_eof')),
+            'silent': len(cb) == 0,
+            'body_lengths': [r.get('body_length') for r in res.get('requests', [])]}
+
+
+def confirm(L, v):
+    """replay the violation's scenario on the real build. Sets v.reproduced (True / False / None = not replayable)."""
+    sc = v.scenario
+    if not isinstance(sc, dict) or not str(sc.get('kind', '')).startswith('conversation'):
+        return
+    pred = sc.get('predicted')
+    try:
+        nat = observe(L, sc)
+    except Exception as e:      # build or run failure: not a verdict
+        v.replay_note = 'native replay failed: %r' % (e,)
+        return
+    if nat is None:
+        return
+    sc['native'] = nat
+    if not pred:
+        v.replay_note = 'replayed natively (observables attached); no model prediction to compare with'
+        return
+    diffs = {k: (pred[k], nat.get(k)) for k in pred if pred[k] != nat.get(k)}
+    v.reproduced = not diffs
+    v.replay_note = 'native observables equal the model prediction' if not diffs else 'model/native differ: %r' % (diffs,)
+
+
+def confirm_choose(L, v):
+    return
